@@ -126,8 +126,10 @@ class Check:
         ev = {"property_id": self.pid, "tier": self.tier, "seed": self.seed, "level": level,
               "coverage": cov, "assumptions": self.assumptions, "wall_s": round(wall, 2),
               "violations": len(self.violations)}
-        (VERIF / "evidence").mkdir(exist_ok=True)
-        (VERIF / "evidence" / f"{self.pid}.json").write_text(json.dumps(ev, indent=1, sort_keys=True) + "\n")
+        # evidence describes the tree under /repo; a run against another tree (--repo, seeded changes) leaves the evidence files alone
+        evdir = VERIF / "evidence" if os.path.realpath(self.repo) == "/repo" else VERIF / "out" / "evidence_other_tree"
+        evdir.mkdir(parents=True, exist_ok=True)
+        (evdir / f"{self.pid}.json").write_text(json.dumps(ev, indent=1, sort_keys=True) + "\n")
         for key, what in sorted(self.known_hits.items()):
             print(f"KNOWN-FINDING: property={self.pid} {what} [{key}]")
         if self.violations:
